@@ -1,3 +1,4 @@
+import GnarkVerif.Model.Util
 /-
 Result type of the generated group-level verifier code (`Gen/Verifier/*.lean`, written by tools/goslp/slpgroup.go):
 a Go `error` value. `ok` is `nil`; `err n` is a non-nil error, `n` = the name of the package-level error variable
@@ -13,5 +14,16 @@ inductive Res where
 
 /-- the verdict error of `kzg.Verify` / `BatchVerifyMultiPoints` -/
 def Res.errVerify : Res := .err "ErrVerifyOpeningProof"
+
+end GV.Gen.Verifier
+
+namespace GV.Gen.Verifier
+
+/-- `big.Int.Cmp` -/
+def cmpInt (a b : Int) : Int := if a < b then -1 else if a = b then 0 else 1
+
+/-- Go `copy(dst, src)` (and `subtle.ConstantTimeCopy(1, dst, src)`, which additionally panics unless the lengths are equal):
+the first `min (len dst) (len src)` bytes of `dst` are replaced -/
+def copyBytes (dst src : List UInt8) : List UInt8 := src.take dst.length ++ dst.drop src.length
 
 end GV.Gen.Verifier
